@@ -361,3 +361,241 @@ Proof.
   intros Ha Hb. split; [apply uunion_value; assumption|]. split; [apply (ujoin_wf a b Ha Hb)|].
   split; [intros c row; apply ujoin_upper; assumption|]. intros u Hu. apply ujoin_least; assumption.
 Qed.
+
+(* --------------------------------------------------------------- contains *)
+(* AddressRange.__contains__ compares with the stored corners, 0 included *)
+Lemma ucontains_value s r c row : uwf r ->
+  contains (unorm s r) (ACell s c row) = Ok true <-> (x1 r <= c <= x2 r /\ y1 r <= row <= y2 r).
+Proof.
+  intros H. unfold unorm. destruct (unb_rect r) eqn:E.
+  - cbn [contains]. split.
+    + intros X. injection X as X. rewrite !andb_true_iff, !Z.leb_le in X. lia.
+    + intros X. f_equal. rewrite !andb_true_iff, !Z.leb_le. lia.
+  - rewrite (contains_spec s r c row (uwf_bounded r H E)). unfold inside. tauto.
+Qed.
+Lemma ucontains_partial s r c row : uwf r -> 1 <= c <= MAX_COL -> 1 <= row <= MAX_ROW ->
+  (contains (unorm s r) (ACell s c row) = Ok true -> uinside r c row)
+  /\ (unb_rect r = false -> (contains (unorm s r) (ACell s c row) = Ok true <-> uinside r c row))
+  /\ ((x1 r = 0 /\ x2 r = 0) \/ (y1 r = 0 /\ y2 r = 0) -> contains (unorm s r) (ACell s c row) = Ok false).
+Proof.
+  intros H Hc Hr. split; [|split].
+  - intros X. apply (ucontains_value s r c row H) in X. unfold uinside, ax_in. lia.
+  - intros E. rewrite (ucontains_value s r c row H).
+    pose proof (uwf_bounded r H E) as W. rewrite (uinside_bounded r c row W). unfold inside. tauto.
+  - intros U. unfold unorm.
+    replace (unb_rect r) with true.
+    + cbn [contains]. f_equal. destruct U as [[U1 U2]|[U1 U2]]; rewrite U1, U2.
+      * replace (c <=? 0) with false by (symmetry; apply Z.leb_gt; lia).
+        rewrite andb_false_r. reflexivity.
+      * replace (row <=? 0) with false by (symmetry; apply Z.leb_gt; lia).
+        rewrite andb_false_r. reflexivity.
+    + symmetry. unfold unb_rect. apply orb_true_iff.
+      destruct U as [[U1 U2]|[U1 U2]]; [left|right]; apply ax_unb_true; lia.
+Qed.
+
+(* ------------------------------------------------------------ idempotence *)
+(* a op a is the operand with every unbounded axis (0, k) rewritten to (0, M-1):
+   the same cells, but not the same address *)
+Definition ucanon (a : rect) : rect :=
+  {| x1 := x1 a; y1 := y1 a;
+     x2 := x1 a + ax_size MAX_COL (x1 a) (x2 a) - 1; y2 := y1 a + ax_size MAX_ROW (y1 a) (y2 a) - 1 |}.
+
+Lemma canon_axis M lo hi : 2 <= M -> ax_ok M lo hi ->
+  let hi' := lo + ax_size M lo hi - 1 in
+  ax_ok M lo hi' /\ lo + ax_size M lo hi' - 1 = hi' /\ (lo <> 0 -> hi' = hi)
+  /\ (forall x, ax_in M lo hi' x <-> ax_in M lo hi x).
+Proof.
+  intros HM H hi'. subst hi'. destruct (ax_ok_size _ _ _ H) as [(A & B & E)|(A & B & E)]; rewrite E.
+  - replace (lo + (hi - lo + 1) - 1) with hi by lia. rewrite E.
+    repeat split; try assumption; unfold ax_in in *; try tauto; try lia.
+  - rewrite ax_size_u by exact A. unfold ax_ok, ax_in. repeat split; try lia.
+Qed.
+Lemma self_axis M lo hi : mlo lo lo = lo /\ jlo lo lo = lo
+  /\ mhi M lo hi lo hi = lo + ax_size M lo hi - 1 /\ jhi M lo hi lo hi = lo + ax_size M lo hi - 1.
+Proof. unfold mlo, jlo, mhi, jhi. lia. Qed.
+
+Lemma umeet_self a : umeet a a = ucanon a.
+Proof.
+  destruct (self_axis MAX_COL (x1 a) (x2 a)) as (A & _ & B & _).
+  destruct (self_axis MAX_ROW (y1 a) (y2 a)) as (C & _ & D & _).
+  apply rect_eq; cbn [umeet ucanon x1 x2 y1 y2]; assumption.
+Qed.
+Lemma ujoin_self a : ujoin a a = ucanon a.
+Proof.
+  destruct (self_axis MAX_COL (x1 a) (x2 a)) as (_ & A & _ & B).
+  destruct (self_axis MAX_ROW (y1 a) (y2 a)) as (_ & C & _ & D).
+  apply rect_eq; cbn [ujoin ucanon x1 x2 y1 y2]; assumption.
+Qed.
+Lemma ucanon_props a : uwf a ->
+  uwf (ucanon a) /\ ucanon (ucanon a) = ucanon a /\ (unb_rect a = false -> ucanon a = a)
+  /\ (forall c row, uinside (ucanon a) c row <-> uinside a c row).
+Proof.
+  intros (Ax & Ay).
+  destruct (canon_axis _ _ _ max_col_2 Ax) as (P1 & P2 & P3 & P4).
+  destruct (canon_axis _ _ _ max_row_2 Ay) as (Q1 & Q2 & Q3 & Q4).
+  split; [split; assumption|]. split; [|split].
+  - apply rect_eq; cbn [ucanon x1 x2 y1 y2]; try reflexivity; assumption.
+  - intros E. apply orb_false_iff in E. destruct E as [E1 E2]. apply ax_unb_false in E1, E2.
+    apply rect_eq; cbn [ucanon x1 x2 y1 y2]; try reflexivity; [apply P3|apply Q3]; tauto.
+  - intros c row. unfold uinside. cbn [ucanon x1 x2 y1 y2]. rewrite (P4 c), (Q4 row). tauto.
+Qed.
+
+Lemma uidem s a : uwf a ->
+  uwf (ucanon a)
+  /\ op_inter (VA (unorm s a)) (VA (unorm s a)) = Ok (VA (unorm s (ucanon a)))
+  /\ op_union (VA (unorm s a)) (VA (unorm s a)) = Ok (VA (unorm s (ucanon a)))
+  /\ (forall c row, uinside (ucanon a) c row <-> uinside a c row)
+  /\ op_inter (VA (unorm s (ucanon a))) (VA (unorm s (ucanon a))) = Ok (VA (unorm s (ucanon a)))
+  /\ op_union (VA (unorm s (ucanon a))) (VA (unorm s (ucanon a))) = Ok (VA (unorm s (ucanon a)))
+  /\ (unb_rect a = false -> ucanon a = a).
+Proof.
+  intros Ha. destruct (ucanon_props a Ha) as (W & I & B & C).
+  assert (U : forall r, uwf r -> op_union (VA (unorm s r)) (VA (unorm s r)) = Ok (VA (unorm s (ucanon r)))).
+  { intros r Hr. rewrite uunion_value, ujoin_self by assumption. reflexivity. }
+  assert (N : forall r, uwf r -> op_inter (VA (unorm s r)) (VA (unorm s r)) = Ok (VA (unorm s (ucanon r)))).
+  { intros r Hr. rewrite uinter_value by assumption. unfold umeet_val. rewrite umeet_self.
+    destruct (ujoin_wf r r Hr Hr) as (_ & _ & _ & _ & E). rewrite ujoin_self in E. rewrite E. reflexivity. }
+  split; [exact W|]. split; [apply N, Ha|]. split; [apply U, Ha|]. split; [exact C|].
+  split; [rewrite (N _ W), I; reflexivity|]. split; [rewrite (U _ W), I; reflexivity|exact B].
+Qed.
+
+(* ----------------------------------------------------------- associativity *)
+(* the extent of a non-empty & is read back unchanged: & is a genuine meet *)
+Lemma reread_meet M lo1 hi1 lo2 hi2 : 2 <= M -> ax_ok M lo1 hi1 -> ax_ok M lo2 hi2 ->
+  mlo lo1 lo2 <= mhi M lo1 hi1 lo2 hi2 ->
+  mlo lo1 lo2 + ax_size M (mlo lo1 lo2) (mhi M lo1 hi1 lo2 hi2) = mhi M lo1 hi1 lo2 hi2 + 1.
+Proof.
+  intros HM H1 H2 Hne.
+  destruct (meet_axis_ok _ _ _ _ _ HM H1 H2 Hne) as (K & _).
+  destruct (ax_ok_size _ _ _ K) as [(A & B & ->)|(A & B & ->)]; [lia|].
+  revert A B Hne. unfold mlo, mhi.
+  destruct (ax_ok_size _ _ _ H1) as [(A1 & B1 & ->)|(A1 & B1 & ->)];
+    destruct (ax_ok_size _ _ _ H2) as [(C & D & ->)|(C & D & ->)]; lia.
+Qed.
+Lemma meet3_axis M lo1 hi1 lo2 hi2 lo3 hi3 : 2 <= M -> ax_ok M lo1 hi1 -> ax_ok M lo2 hi2 -> ax_ok M lo3 hi3 ->
+  let e1 := lo1 + ax_size M lo1 hi1 in let e2 := lo2 + ax_size M lo2 hi2 in let e3 := lo3 + ax_size M lo3 hi3 in
+  (mlo lo1 lo2 <= mhi M lo1 hi1 lo2 hi2 ->
+     mlo (mlo lo1 lo2) lo3 = Z.max lo1 (Z.max lo2 lo3)
+     /\ mhi M (mlo lo1 lo2) (mhi M lo1 hi1 lo2 hi2) lo3 hi3 = Z.min e1 (Z.min e2 e3) - 1)
+  /\ (mlo lo2 lo3 <= mhi M lo2 hi2 lo3 hi3 ->
+     mlo lo1 (mlo lo2 lo3) = Z.max lo1 (Z.max lo2 lo3)
+     /\ mhi M lo1 hi1 (mlo lo2 lo3) (mhi M lo2 hi2 lo3 hi3) = Z.min e1 (Z.min e2 e3) - 1)
+  /\ (mhi M lo1 hi1 lo2 hi2 < mlo lo1 lo2 \/ mhi M lo2 hi2 lo3 hi3 < mlo lo2 lo3 ->
+      Z.min e1 (Z.min e2 e3) - 1 < Z.max lo1 (Z.max lo2 lo3)).
+Proof.
+  intros HM H1 H2 H3 e1 e2 e3. split; [|split].
+  - intros Hne. split; [unfold mlo; lia|].
+    unfold mhi at 1. rewrite (reread_meet M lo1 hi1 lo2 hi2 HM H1 H2 Hne). unfold mhi. subst e1 e2 e3. lia.
+  - intros Hne. split; [unfold mlo; lia|].
+    unfold mhi at 1. rewrite (reread_meet M lo2 hi2 lo3 hi3 HM H2 H3 Hne). unfold mhi. subst e1 e2 e3. lia.
+  - subst e1 e2 e3. unfold mlo, mhi.
+    destruct (ax_ok_size _ _ _ H1) as [(A1 & B1 & ->)|(A1 & B1 & ->)];
+      destruct (ax_ok_size _ _ _ H2) as [(A2 & B2 & ->)|(A2 & B2 & ->)];
+      destruct (ax_ok_size _ _ _ H3) as [(A3 & B3 & ->)|(A3 & B3 & ->)]; lia.
+Qed.
+
+Lemma empty_false_axes m : empty_rect m = false -> x1 m <= x2 m /\ y1 m <= y2 m.
+Proof. intros E. apply orb_false_iff in E. destruct E as [E1 E2]. apply Z.ltb_ge in E1, E2. tauto. Qed.
+Lemma empty_true_axes m : empty_rect m = true <-> x2 m < x1 m \/ y2 m < y1 m.
+Proof. unfold empty_rect. rewrite orb_true_iff, !Z.ltb_lt. tauto. Qed.
+
+Lemma umeet3 a b c : uwf a -> uwf b -> uwf c ->
+  (empty_rect (umeet a b) = false -> empty_rect (umeet b c) = false ->
+     umeet (umeet a b) c = umeet a (umeet b c))
+  /\ (empty_rect (umeet a b) = true -> empty_rect (umeet b c) = false ->
+     empty_rect (umeet a (umeet b c)) = true)
+  /\ (empty_rect (umeet a b) = false -> empty_rect (umeet b c) = true ->
+     empty_rect (umeet (umeet a b) c) = true).
+Proof.
+  intros (Ax & Ay) (Bx & By) (Cx & Cy).
+  destruct (meet3_axis MAX_COL _ _ _ _ _ _ max_col_2 Ax Bx Cx) as (XL & XR & XE).
+  destruct (meet3_axis MAX_ROW _ _ _ _ _ _ max_row_2 Ay By Cy) as (YL & YR & YE).
+  split; [|split].
+  - intros E1 E2. apply empty_false_axes in E1, E2. cbn [umeet x1 x2 y1 y2] in E1, E2.
+    destruct E1 as [E1x E1y], E2 as [E2x E2y].
+    destruct (XL E1x) as [XL1 XL2]. destruct (XR E2x) as [XR1 XR2].
+    destruct (YL E1y) as [YL1 YL2]. destruct (YR E2y) as [YR1 YR2].
+    apply rect_eq; cbn [umeet x1 x2 y1 y2]; congruence.
+  - intros E1 E2. apply empty_false_axes in E2. cbn [umeet x1 x2 y1 y2] in E2. destruct E2 as [E2x E2y].
+    apply empty_true_axes in E1. cbn [umeet x1 x2 y1 y2] in E1.
+    destruct (XR E2x) as [XR1 XR2]. destruct (YR E2y) as [YR1 YR2].
+    apply empty_true_axes. cbn [umeet x1 x2 y1 y2]. rewrite XR1, XR2, YR1, YR2.
+    destruct E1 as [E1|E1]; [left; apply XE; left; exact E1|right; apply YE; left; exact E1].
+  - intros E1 E2. apply empty_false_axes in E1. cbn [umeet x1 x2 y1 y2] in E1. destruct E1 as [E1x E1y].
+    apply empty_true_axes in E2. cbn [umeet x1 x2 y1 y2] in E2.
+    destruct (XL E1x) as [XL1 XL2]. destruct (YL E1y) as [YL1 YL2].
+    apply empty_true_axes. cbn [umeet x1 x2 y1 y2]. rewrite XL1, XL2, YL1, YL2.
+    destruct E2 as [E2|E2]; [left; apply XE; right; exact E2|right; apply YE; right; exact E2].
+Qed.
+
+(* & is associative on extended rectangles of one sheet, exactly (#NULL! handed on) *)
+Lemma uinter_assoc s a b c : uwf a -> uwf b -> uwf c ->
+  bind (op_inter (VA (unorm s a)) (VA (unorm s b))) (fun x => op_inter x (VA (unorm s c)))
+  = bind (op_inter (VA (unorm s b)) (VA (unorm s c))) (fun x => op_inter (VA (unorm s a)) x).
+Proof.
+  intros Ha Hb Hc. rewrite !uinter_value by assumption. unfold umeet_val.
+  destruct (error_operand NULL_ERROR (unorm s c) null_is_code) as (_ & EL & _).
+  destruct (error_operand NULL_ERROR (unorm s a) null_is_code) as (ER & _).
+  destruct (umeet3 a b c Ha Hb Hc) as (T1 & T2 & T3).
+  destruct (empty_rect (umeet a b)) eqn:Eab; destruct (empty_rect (umeet b c)) eqn:Ebc; cbn [bind].
+  - rewrite EL, ER. reflexivity.
+  - rewrite EL, uinter_value by (try apply (umeet_wf b c Hb Hc Ebc); assumption). unfold umeet_val.
+    rewrite T2 by reflexivity. reflexivity.
+  - rewrite ER, uinter_value by (try apply (umeet_wf a b Ha Hb Eab); assumption). unfold umeet_val.
+    rewrite T3 by reflexivity. reflexivity.
+  - rewrite !uinter_value by (try apply (umeet_wf a b Ha Hb Eab); try apply (umeet_wf b c Hb Hc Ebc); assumption).
+    unfold umeet_val. rewrite T1 by reflexivity. reflexivity.
+Qed.
+
+(* ** is associative up to the cells: both groupings give an extended rectangle
+   with the same cells, the least one over the three operands (the addresses can
+   differ, Refuted/C11_unbounded.v) *)
+Lemma uunion_assoc_cells s a b c : uwf a -> uwf b -> uwf c ->
+  bind (op_union (VA (unorm s a)) (VA (unorm s b))) (fun x => op_union x (VA (unorm s c)))
+    = Ok (VA (unorm s (ujoin (ujoin a b) c)))
+  /\ bind (op_union (VA (unorm s b)) (VA (unorm s c))) (fun x => op_union (VA (unorm s a)) x)
+    = Ok (VA (unorm s (ujoin a (ujoin b c))))
+  /\ (forall col row, uinside (ujoin (ujoin a b) c) col row <-> uinside (ujoin a (ujoin b c)) col row).
+Proof.
+  intros Ha Hb Hc.
+  destruct (ujoin_wf a b Ha Hb) as (Wab & _). destruct (ujoin_wf b c Hb Hc) as (Wbc & _).
+  destruct (ujoin_wf _ c Wab Hc) as (Wl & _). destruct (ujoin_wf a _ Ha Wbc) as (Wr & _).
+  split; [|split].
+  - rewrite uunion_value by assumption. cbn [bind]. apply uunion_value; assumption.
+  - rewrite uunion_value by assumption. cbn [bind]. apply uunion_value; assumption.
+  - intros col row. split.
+    + apply (ujoin_least (ujoin a b) c _ Wab Hc Wr). intros x y [H|H].
+      * revert x y H. apply (ujoin_least a b _ Ha Hb Wr). intros x y [H|H].
+        -- apply ujoin_upper; [assumption..|left; exact H].
+        -- apply ujoin_upper; [assumption..|right]. apply ujoin_upper; [assumption..|left; exact H].
+      * apply ujoin_upper; [assumption..|right]. apply ujoin_upper; [assumption..|right; exact H].
+    + apply (ujoin_least a (ujoin b c) _ Ha Wbc Wl). intros x y [H|H].
+      * apply ujoin_upper; [assumption..|left]. apply ujoin_upper; [assumption..|left; exact H].
+      * revert x y H. apply (ujoin_least b c _ Hb Hc Wl). intros x y [H|H].
+        -- apply ujoin_upper; [assumption..|left]. apply ujoin_upper; [assumption..|right; exact H].
+        -- apply ujoin_upper; [assumption..|right; exact H].
+Qed.
+
+(* ------------------------------------------------------------ non-vacuity *)
+Definition colrange (c1 c2 : Z) : rect := {| x1 := c1; y1 := 0; x2 := c2; y2 := 0 |}.
+Definition rowrange (r1 r2 : Z) : rect := {| x1 := 0; y1 := r1; x2 := 0; y2 := r2 |}.
+Lemma colrange_uwf c1 c2 : 1 <= c1 <= c2 -> c2 <= MAX_COL -> uwf (colrange c1 c2).
+Proof. intros A B. split; [left; cbn; lia|right; cbn; unfold MAX_ROW; lia]. Qed.
+Lemma rowrange_uwf r1 r2 : 1 <= r1 <= r2 -> r2 <= MAX_ROW -> uwf (rowrange r1 r2).
+Proof. intros A B. split; [right; cbn; unfold MAX_COL; lia|left; cbn; lia]. Qed.
+
+(* A:C & 2:5 = A2:C5 ; A:C & B:D = the columns B:C ; A:C ** B2:D5 = the columns A:D *)
+Example ex_uwf : uwf (colrange 1 3) /\ uwf (rowrange 2 5) /\ no_edge (colrange 1 3) (rowrange 2 5).
+Proof.
+  split; [apply colrange_uwf; unfold MAX_COL; lia|]. split; [apply rowrange_uwf; unfold MAX_ROW; lia|].
+  unfold no_edge, MAX_COL, MAX_ROW. cbn. lia.
+Qed.
+Example ex_cols_rows : op_inter (VA (unorm [] (colrange 1 3))) (VA (unorm [] (rowrange 2 5)))
+  = Ok (VA (ARange [] 1 2 3 5)).
+Proof. vm_compute. reflexivity. Qed.
+Example ex_cols_cols : op_inter (VA (unorm [] (colrange 1 3))) (VA (unorm [] (colrange 2 4)))
+  = Ok (VA (ARange [] 2 0 3 1048575)).
+Proof. vm_compute. reflexivity. Qed.
+Example ex_cols_union : op_union (VA (unorm [] (colrange 1 3))) (VA (ARange [] 2 2 4 5))
+  = Ok (VA (ARange [] 1 0 4 1048575)).
+Proof. vm_compute. reflexivity. Qed.
